@@ -487,8 +487,32 @@ def handleFn (vectors ctx ir : String) : String :=
           "ast " ++ showFunc afn ++ " ;; run " ++ " | ".intercalate outs
   | _, _, _ => "bad-request"
 
+/-- `C01.prim`: the concrete primitive interpretation itself, compared with the harness's (sx.rs) on edge values —
+`cmp a b,b,…` ↦ per `b` the six comparisons `< <= > >= == !=` as bits; `conv x,x,…` ↦ per `x` the five conversions -/
+def handlePrim (kind : String) (rest : List String) : String :=
+  let bit (b : Bool) : String := if b then "1" else "0"
+  let vals (t : String) : Option (List (BitVec 32)) :=
+    sequenceOpt ((t.splitOn ",").map fun w => (hexVal? w).map (BitVec.ofNat 32))
+  match kind, rest with
+  | "cmp", [a, bs] =>
+    match hexVal? a, vals bs with
+    | some a, some bs =>
+      let a := BitVec.ofNat 32 a
+      " ".intercalate (bs.map fun b =>
+        String.join ([MBin.lt, .le, .gt, .ge, .eq, .ne].map fun m => bit (concretePrim.fcmp m a b)))
+    | _, _ => "bad-request"
+  | "conv", [xs] =>
+    match vals xs with
+    | some xs =>
+      " ".intercalate (xs.map fun x =>
+        hexOf 8 (concretePrim.i2f x).toNat ++ "," ++ hexOf 8 (concretePrim.u2f x).toNat ++ "," ++
+        hexOf 8 (concretePrim.f2i x).toNat ++ "," ++ hexOf 8 (concretePrim.f2u x).toNat ++ "," ++ bit (concretePrim.f2b x))
+    | none => "bad-request"
+  | _, _ => "bad-request"
+
 def handle (op : String) (args : List String) : String :=
   match op, args with
+  | "C01.prim", kind :: rest => handlePrim kind rest
   | "C01.fn", [_src, name, vectors, ctx, ir] => if name == "-" then "skip" else handleFn vectors ctx ir
   | "C01.wt", [_src, _name, _vectors, ctx, ir] =>
     -- do the hypotheses of the theorems hold for this program? (statistics of the correspondence run)
